@@ -229,4 +229,52 @@ def readFile (nh : Nat) (b : List UInt8) : ReadOut :=
   | none => ⟨.openError, []⟩
   | some rest => readRecs (rest.length + 1) rest
 
+/-! ### the reader object and its life-cycle
+
+`FitInfoFile(path, 'r')` holds one file handle.  Every `for info in reader` starts a new generator over the SAME
+handle, so a pass continues at the position the previous pass left: after a pass the consumer abandoned (`break`
+after `limit` records) the next pass goes on with the following record; after a pass that ended with `EOFError`
+or with an error the handle is at the end of the (truncated) file. -/
+
+/-- how one pass over the reader ended -/
+inductive PassEnd where
+  /-- the consumer stopped iterating after the records it wanted -/
+  | stopped
+  /-- `EOFError`: the generator returned -/
+  | cleanEnd
+  /-- another exception propagated to the consumer -/
+  | error
+  deriving DecidableEq, Repr
+
+/-- one pass: the frames yielded, how it ended, the bytes left for the next pass -/
+structure PassOut where
+  recs : List (List UInt8)
+  ending : PassEnd
+  rest : List UInt8
+  deriving DecidableEq, Repr
+
+/-- one pass over the remaining bytes `b`, abandoned by the consumer after `limit` records
+    (`none`: iterate to the end) -/
+def readPass : Nat → Option Nat → List UInt8 → PassOut
+  | 0, _, b => ⟨[], .error, b⟩
+  | f + 1, limit, b =>
+    if limit = some 0 then ⟨[], .stopped, b⟩
+    else
+      match scanOne b with
+      | .done rest =>
+        let o := readPass f (limit.map (· - 1)) rest
+        ⟨b.take (b.length - rest.length) :: o.recs, o.ending, o.rest⟩
+      | .eofAtOpcode => ⟨[], .cleanEnd, []⟩
+      | _ => ⟨[], .error, []⟩
+
+/-- the life of one reader object: passes in sequence, each continuing where the previous one stopped -/
+def readPasses : List (Option Nat) → List UInt8 → List PassOut
+  | [], _ => []
+  | l :: ls, b =>
+    let o := readPass (b.length + 1) l b
+    o :: readPasses ls o.rest
+
+/-- everything the consumer received from one reader object, in order -/
+def allYielded (ps : List PassOut) : List (List UInt8) := (ps.map (·.recs)).flatten
+
 end SF.Pickle
